@@ -12,7 +12,8 @@ variable {α : Type} [Scalar α]
 theorem isTemp_tmpName (k : Nat) : isTemp (tmpName k) = true := by simp [isTemp, tmpName]
 
 theorem parseLit_tmpName (k : Nat) : parseLit (tmpName k) = none := by
-  simp [parseLit, tmpName]
+  have h1 : ('#' : Char).toLower = '#' := by decide
+  simp [parseLit, tmpName, wordLit, h1]
 
 theorem litOf_tmpName (k : Nat) : litOf (α := α) (tmpName k) = none := by simp [litOf, parseLit_tmpName]
 
@@ -268,25 +269,55 @@ theorem runVoid_fresh (tr : Tr α) (k : Nat) (compute : Tr α → Except Err (Li
   simp only [runVoid, hcr, hc, hw]
 
 
+/-- the input column of a void function on a track that has gained features: the column itself -/
+theorem voidCompute_ext (tr : Tr α) (f s : Str) (x : List α) (ad : List (Str × List α)) (gs : getAF tr s = .ok x) :
+    voidCompute f s (ext tr ad) = voidFn f tr.n x := by
+  simp only [voidCompute, voidInput, getAF_ext _ gs, ext_n]
+  split <;> rfl
+
+theorem voidCompute_self (tr : Tr α) (f s : Str) (x : List α) (gs : getAF tr s = .ok x) :
+    voidCompute f s tr = voidFn f tr.n x := by
+  simp only [voidCompute, voidInput, gs]
+  split <;> rfl
+
+/-- `Log` storing into a new (non-reserved) name: the column is appended -/
+theorem opLog_new (tr : Tr α) (inp out : Str) (c : List α)
+    (hn : tr.n ≠ 0) (hr : isReserved out = false) (hlk : lookup out tr.feats = none)
+    (hc : voidCompute logName inp tr = .ok c) : opLog tr inp out = (.ok c, ext tr [(out, c)]) := by
+  have hh : hasAF tr out = false := by simp [hasAF, hlk, hr]
+  have hcr : createAF tr out c = .ok (ext tr [(out, c)]) := by simp [createAF, hr, hn, hlk, ext]
+  simp only [opLog, hc, hh, hcr, Bool.false_eq_true, if_false]
+
+theorem opLog_new_err (tr : Tr α) (inp out : Str) (e : Err)
+    (hc : voidCompute logName inp tr = .error e) : opLog tr inp out = (.error e, tr) := by
+  simp only [opLog, hc]
+
+/-- a void function writing to the fresh temporary `#k`: the computed column is appended under `#k` -/
+theorem opVoidFn_fresh (tr : Tr α) (f s : Str) (k : Nat) (x c : List α)
+    (hn : tr.n ≠ 0) (hf : lookup (tmpName k) tr.feats = none)
+    (gs : getAF tr s = .ok x) (hc : voidFn f tr.n x = .ok c) :
+    opVoidFn tr f s (tmpName k) = (.ok c, ext tr [(tmpName k, c)]) := by
+  unfold opVoidFn
+  by_cases hlog : f = logName
+  · subst hlog
+    simp only [if_true]
+    exact opLog_new tr s (tmpName k) c hn (isReserved_tmpName k) hf (by rw [voidCompute_self tr _ s x gs]; exact hc)
+  · simp only [hlog, if_false]
+    exact runVoid_fresh tr k (voidCompute f s) c hn hf (by rw [voidCompute_ext tr f s x _ gs]; exact hc)
+
 theorem binOps_ne {o : Char} (ho : binOps.contains o = true) : o ≠ '=' ∧ o ≠ '@' := by
   constructor <;> (intro h; subst h; revert ho; decide)
 
+theorem reserved_not_lit : ∀ r ∈ reservedNames, parseLit r = none := by decide +kernel
+
 theorem not_reserved_of_lit {s : Str} (h : (parseLit s).isSome) : isReserved s = false := by
-  cases s with
-  | nil => simp [parseLit] at h
-  | cons c cs =>
-    simp only [parseLit] at h
-    split at h
-    · simp at h
-    · rename_i hc
-      simp only [Bool.not_eq_eq_eq_not] at hc
-      cases hr : isReserved (c :: cs) with
-      | false => rfl
-      | true =>
-        exfalso
-        simp only [isReserved, reservedNames, List.contains_cons, List.contains_nil, Bool.or_false, Bool.or_eq_true,
-          beq_iff_eq, List.cons.injEq] at hr
-        rcases hr with hr | hr | hr | hr | hr | hr <;> (have := hr.1; subst this; revert hc; decide)
+  cases hr : isReserved s with
+  | false => rfl
+  | true =>
+    exfalso
+    have hm : s ∈ reservedNames := by simpa [isReserved] using hr
+    rw [reserved_not_lit s hm] at h
+    cases h
 
 theorem hasAF_lit_false {tr : Tr α} (hl : NoLitNames tr) {s : Str} (h : (parseLit s).isSome) : hasAF tr s = false := by
   simp [hasAF, hl s h, not_reserved_of_lit h]
@@ -383,7 +414,8 @@ theorem applyOp_call (tr : Tr α) (f : Str) (i : Item α) (k : Nat) (a : List α
   have hfr := hf k (Nat.le_refl k)
   have h0 : ('@' : Char) ≠ '=' := by decide
   unfold applyOperation
-  simp only [h0, if_false, isFloat, hfl, if_true, applyCall]
+  simp only [h0, if_false, isFloat, hfl, if_true]
+  unfold applyCall
   simp only [nodeCall] at hv
   by_cases hvf : isVoidFn f = true
   · simp only [hvf, if_true] at hv ⊢
@@ -392,9 +424,8 @@ theorem applyOp_call (tr : Tr α) (f : Str) (i : Item α) (k : Nat) (a : List α
     | ok c =>
       simp only [hc, Except.map] at hv
       refine ⟨c, by cases hv; rfl, ?_⟩
-      have hr := runVoid_fresh tr k (voidCompute f s) c hn hfr
-        (by simp only [voidCompute, voidInput, getAF_ext _ gs, ext_n]; split <;> exact hc)
-      simp only [opVoidFn, hr]
+      have hr := opVoidFn_fresh tr f s k a c hn hfr gs hc
+      simp only [hr]
   · simp only [hvf, if_false, Bool.false_eq_true] at hv ⊢
     by_cases haf : isAggFn f = true
     · simp only [haf, if_true] at hv ⊢
@@ -963,11 +994,15 @@ theorem opVoidFn_denote (tr : Tr α) (f a out : Str) (ca : List α)
     (hn : tr.n ≠ 0) (hr : isReserved out = false) (hlk : lookup out tr.feats = none) :
     (opVoidFn tr f a out).1.map Val.vec = denoteM tr (.call f (.var a)) := by
   simp only [denoteM, ga, Except.map, ok_bind, nodeCall, hf, if_true]
-  rw [opVoidFn, runVoid_new_fst tr out _ hn hr hlk]
-  have : voidCompute f a (ext tr [(out, konst tr zero)]) = voidFn f tr.n ca := by
-    simp only [voidCompute, voidInput, getAF_ext _ ga, ext_n]
-    split <;> rfl
-  rw [this]
+  unfold opVoidFn
+  by_cases hlog : f = logName
+  · subst hlog
+    simp only [if_true]
+    cases hc : voidFn logName tr.n ca with
+    | error e => rw [opLog_new_err tr a out e (by rw [voidCompute_self tr _ a ca ga]; exact hc)]
+    | ok c => rw [opLog_new tr a out c hn hr hlk (by rw [voidCompute_self tr _ a ca ga]; exact hc)]
+  · simp only [hlog, if_false]
+    rw [runVoid_new_fst tr out _ hn hr hlk, voidCompute_ext tr f a ca _ ga]
 
 theorem opAgg_denote (tr : Tr α) (f a : Str) (ca : List α)
     (ga : getAF tr a = .ok ca) (hf : isVoidFn f = false) (hg : isAggFn f = true) :
